@@ -93,6 +93,11 @@ impl Config {
 	}
 
 	pub fn get_hook(&self, name: &str) -> Result<Vec<hooks::Hook>, Error> {
+		// A chain of nested groups that is longer than the number of groups contains a cycle.
+		self.get_hook_rec(name, self.group.len())
+	}
+
+	fn get_hook_rec(&self, name: &str, max_depth: usize) -> Result<Vec<hooks::Hook>, Error> {
 		for hook in self.hook.iter() {
 			if name == hook.name {
 				let h = hooks::Hook {
@@ -112,9 +117,12 @@ impl Config {
 		}
 		for grp in self.group.iter() {
 			if name == grp.name {
+				if max_depth == 0 {
+					return Err(format!("{name}: hook group cycle detected").into());
+				}
 				let mut ret = vec![];
 				for hook_name in grp.hooks.iter() {
-					let mut h = self.get_hook(hook_name)?;
+					let mut h = self.get_hook_rec(hook_name, max_depth - 1)?;
 					ret.append(&mut h);
 				}
 				return Ok(ret);
